@@ -460,7 +460,10 @@ pub fn write_async(name: &str, doc: &Doc, script: &PollScript, workers: usize) -
                 let inner = bgzf::r#async::io::writer::Builder::default().set_worker_count(workers).build_from_writer(sink);
                 let mut w = bam::r#async::io::Writer::from(inner);
                 w.write_header(&header).await?;
-                for r in &recs {
+                for (i, r) in recs.iter().enumerate() {
+                    if let Some(bad) = super::sync::rejected_variant(i, r) {
+                        let _ = w.write_alignment_record(&header, &bad).await;
+                    }
                     w.write_alignment_record(&header, r).await?;
                 }
                 w.shutdown().await?;
